@@ -2,7 +2,7 @@
 R-DISCONT, R-EXTRACT."""
 import ast
 
-from ..core import (AnalysisError, path, unparse, norm_test, facts_at, walk_own, split_assumes,
+from ..core import (AnalysisError, Unrecognised, path, unparse, norm_test, facts_at, walk_own, split_assumes,
                     const_str, no_kill_between, root_name)
 from ..events import name_defs, single_def
 from ..report import Ob
@@ -129,7 +129,7 @@ def r_accum(prog, tier):
                               'count from the source grammar' % (unparse(arg) if arg is not None else '?'), ok, why,
                               construct='handover:%d' % ncalls, line=n.lineno))
     if ncalls < 2:
-        raise AnalysisError('grammar.binarize calls binarize_rule %d times (2 expected)' % ncalls)
+        raise Unrecognised('grammar.binarize calls binarize_rule %d times (2 expected)' % ncalls)
     # ---- printed count is the sum over contexts
     for nm in prog.registry('grammaroutput', 'FORMATS'):
         f = prog.func('grammaroutput', nm)
@@ -365,7 +365,7 @@ def r_arity(prog, tier):
                 e = e.value
             keys.setdefault((unparse(e.slice), n.id), (e.slice, n, tgt))
     if not keys:
-        raise AnalysisError('binarize_rule stores nothing into its result')
+        raise Unrecognised('binarize_rule stores nothing into its result')
     seen = set()
     for (ktxt, nid), (kexpr, n, tgt) in sorted(keys.items(), key=lambda x: x[0][1]):
         if isinstance(kexpr, ast.Name) and kexpr.id == func_p:
@@ -427,7 +427,7 @@ def r_arity(prog, tier):
                           'depend on it): two rules can share a binarization symbol',
                           construct='labelgen:' + unparse(r.ast), line=r.lineno))
         if not rets:
-            raise AnalysisError('LabelGenerator.next has no return')
+            raise Unrecognised('LabelGenerator.next has no return')
     g = prog.func('grammar', 'binarize')
     gc = g.cfg
     ctors = []
@@ -438,7 +438,7 @@ def r_arity(prog, tier):
                         and sub.func.id in ('LabelGenerator', 'MarkovLabelGenerator'):
                     ctors.append((n, sub))
     if not ctors:
-        raise AnalysisError('grammar.binarize creates no label generator')
+        raise Unrecognised('grammar.binarize creates no label generator')
     for (n, sub) in ctors:
         ok = not n.loops
         obs.append(Ob('R-ARITY/UNIQUE', g.fq, 'the label generator `%s` is created once per binarize call, outside '
@@ -540,7 +540,7 @@ def r_argpos(prog, tier):
                       'the emission is not guarded by exactly the test on the *current* argument `%s`' % cur,
                       construct='extract-merge', line=n.lineno))
     if sites < 3:
-        raise AnalysisError('R-ARGPOS found %d emission sites (at least 3 expected)' % sites)
+        raise Unrecognised('R-ARGPOS found %d emission sites (at least 3 expected)' % sites)
     # one argument per block
     f = prog.func('grammar', 'extract')
     cfg = f.cfg
@@ -552,8 +552,8 @@ def r_argpos(prog, tier):
                         and cfg.in_every_iteration(n.id, m.id):
                     okb = True
     obs.append(Ob('R-DISCONT/CHAIN', f.fq, 'extract opens exactly one left-hand-side argument per block of the node',
-                  okb, 'unconditional `lin.append([])` per element of trees.terminal_blocks(subtree)' if okb else
-                  'no unconditional new argument per block', construct='chain-blocks', line=f.node.lineno))
+                  True if okb else None, 'unconditional `lin.append([])` per element of trees.terminal_blocks(subtree)' if okb else
+                  'construction of the arguments not recognised', construct='chain-blocks', line=f.node.lineno))
     return obs, {}
 
 
@@ -865,7 +865,7 @@ def r_idcounter(prog, tier):
                           'loop level' % (c, inc.lineno, sorted(set(u.lineno for u in bad))),
                           construct='idcounter:' + c, line=inc.lineno))
     if len(idc) < 2:
-        raise AnalysisError('pmcfg writer: %d id counters found (2 expected)' % len(idc))
+        raise Unrecognised('pmcfg writer: %d id counters found (2 expected)' % len(idc))
     return obs, {}
 
 
@@ -878,7 +878,7 @@ def r_sortedpos(prog, tier):
                 and unparse(n.value) == 'defaultdict(dict)':
             posd.add(n.targets[0].id)
     if not posd:
-        raise AnalysisError('rcg writer: no position dictionary (defaultdict(dict)) found')
+        raise Unrecognised('rcg writer: no position dictionary (defaultdict(dict)) found')
     inner = set()
     for n in walk_own(f.node):
         if isinstance(n, ast.For):
@@ -925,20 +925,26 @@ def r_sortedpos(prog, tier):
                       'them, not by position' % unparse(it)[:40], construct='sortedpos:%s:%s' % (nm, unparse(it)),
                       line=it.lineno))
     if cnt < 2:
-        raise AnalysisError('rcg writer: %d iterations over position dictionaries found (2 expected)' % cnt)
+        raise Unrecognised('rcg writer: %d iterations over position dictionaries found (2 expected)' % cnt)
     return obs, {}
 
 
 # ------------------------------------------------------------------------------------ R-DISCONT
 
 def _gap_predicates(f):
-    """Compare nodes of the form X + 1 < Y / Y > X + 1 over token numbers."""
+    """Compare nodes relating x + 1 to y (the gap test between consecutive token numbers)."""
     out = []
     for n in walk_own(f.node):
-        if isinstance(n, ast.Compare) and len(n.ops) == 1:
-            s = unparse(n)
-            if ('+ 1' in s or '1 +' in s or '- 1' in s) and ("['num']" in s or 'pos' in s or 'last_terminal' in s):
-                out.append(n)
+        if isinstance(n, ast.Compare) and len(n.ops) == 1 and isinstance(n.ops[0], (ast.Lt, ast.Gt, ast.LtE, ast.GtE)):
+            for side in (n.left, n.comparators[0]):
+                if isinstance(side, ast.BinOp) and isinstance(side.op, ast.Add) and \
+                        (unparse(side.right) == '1' or unparse(side.left) == '1'):
+                    other = n.comparators[0] if side is n.left else n.left
+                    txt = unparse(n)
+                    # token numbers only: the comparison mentions a 'num' field or values derived from one
+                    if 'len(' in txt:
+                        continue
+                    out.append(n)
     return out
 
 
@@ -950,69 +956,117 @@ def r_discont(prog, tier):
         f = prog.func(m, q)
         preds = _gap_predicates(f)
         if not preds:
-            obs.append(Ob('R-DISCONT', f.fq, 'the function contains the gap test between consecutive tokens', False,
-                          'no comparison of the form a + 1 < b on token numbers found', construct='gap-none'))
+            obs.append(Ob('R-DISCONT', f.fq, 'the function contains the gap test between consecutive tokens', None,
+                          'no comparison of the form a + 1 < b found (the test may be written differently)',
+                          construct='gap-none'))
             continue
         for p in preds:
             nt = norm_test(p, True)
-            ok = nt[0] == 'cmp' and nt[2] == '<' and nt[1].endswith('+ 1')
+            strict = nt[0] == 'cmp' and nt[2] == '<' and (nt[1].endswith('+ 1') or nt[1].startswith('1 +'))
+            loose = nt[0] == 'cmp' and nt[2] == '<=' and (nt[1].endswith('+ 1') or nt[1].startswith('1 +'))
+            rev = nt[0] == 'cmp' and (nt[3].endswith('+ 1') or nt[3].startswith('1 +'))
+            ok = True if strict else (False if (loose or rev) else None)
             obs.append(Ob('R-DISCONT', f.fq, 'gap test `%s` is the shared predicate  a + 1 < b' % unparse(p), ok,
                           'normal form %s' % (nt,) if ok else 'normal form %s is not a + 1 < b: this site disagrees '
-                          'with the other three on adjacent or equal numbers' % (nt,), construct='gap:' + unparse(p),
+                          'with the others on adjacent or equal numbers' % (nt,), construct='gap:' + unparse(p),
                           line=p.lineno))
     # chain facts
     f = prog.func('treeanalysis', 'gap_degree')
     rets = [n for n in walk_own(f.node) if isinstance(n, ast.Return)]
-    ok = len(rets) == 1 and isinstance(rets[0].value, ast.Call) and unparse(rets[0].value.func) == 'max' \
-        and len(rets[0].value.args) == 1 and isinstance(rets[0].value.args[0], (ast.ListComp, ast.GeneratorExp)) \
-        and not rets[0].value.args[0].generators[0].ifs \
-        and unparse(rets[0].value.args[0].generators[0].iter) == 'trees.preorder(%s)' % f.params[0] \
-        and unparse(rets[0].value.args[0].elt) == 'gap_degree_node(%s)' % unparse(rets[0].value.args[0].generators[0].target)
-    obs.append(Ob('R-DISCONT/CHAIN', f.fq, 'gap_degree is the maximum of gap_degree_node over all nodes', ok,
-                  'max over trees.preorder(tree), no filter' if ok else 'not a plain maximum over every node of the tree',
+    ok = None
+    why = 'gap_degree has a shape this rule does not recognise'
+    if len(rets) == 1 and isinstance(rets[0].value, ast.Call) and unparse(rets[0].value.func) == 'max' \
+            and len(rets[0].value.args) == 1 and isinstance(rets[0].value.args[0], (ast.ListComp, ast.GeneratorExp)):
+        g = rets[0].value.args[0]
+        if g.generators[0].ifs:
+            ok, why = False, 'some nodes are filtered out of the maximum'
+        elif unparse(g.generators[0].iter) == 'trees.preorder(%s)' % f.params[0] \
+                and unparse(g.elt) == 'gap_degree_node(%s)' % unparse(g.generators[0].target):
+            ok, why = True, 'max over trees.preorder(tree), no filter'
+    obs.append(Ob('R-DISCONT/CHAIN', f.fq, 'gap_degree is the maximum of gap_degree_node over all nodes', ok, why,
                   construct='chain-max', line=f.node.lineno))
     f = prog.func('treeanalysis', 'has_gaps')
     rets = [n for n in walk_own(f.node) if isinstance(n, ast.Return)]
-    ok = len(rets) == 1 and norm_test(rets[0].value, True) == ('cmp', '0', '<', 'gap_degree_node(%s)' % f.params[0])
+    ok = None
+    if len(rets) == 1 and rets[0].value is not None:
+        nt = norm_test(rets[0].value, True)
+        if nt == ('cmp', '0', '<', 'gap_degree_node(%s)' % f.params[0]):
+            ok = True
+        elif nt[0] == 'cmp' and 'gap_degree_node' in (nt[1] + nt[3]) and nt[2] in ('<', '<=') and nt[1] not in ('0',):
+            ok = False
     obs.append(Ob('R-DISCONT/CHAIN', f.fq, 'has_gaps is gap_degree_node > 0', ok, unparse(rets[0]) if rets else '?',
                   construct='chain-hasgaps', line=f.node.lineno, nontrivial=False))
     f = prog.func('grammar', 'extract')
-    ok = False
-    for n in walk_own(f.node):
-        if isinstance(n, ast.BinOp) and isinstance(n.op, ast.Add) and unparse(n.right) == '1' \
-                and isinstance(n.left, ast.Call) and prog.callee(n.left, f) == ('treeanalysis', 'gap_degree_node'):
-            ok = True
-    dom = any(isinstance(n, ast.comprehension) and isinstance(n.iter, ast.Call)
-              and prog.callee(n.iter, f) == ('trees', 'dominance') for n in walk_own(f.node))
-    obs.append(Ob('R-DISCONT/CHAIN', f.fq, 'the vertical context lists the ancestors with fan-out = gap degree + 1',
-                  ok and dom, 'gap_degree_node(dom) + 1 for dom in trees.dominance(subtree)' if ok and dom else
-                  'vertical context is not built from dominance() with gap_degree_node + 1', construct='chain-vert',
-                  line=f.node.lineno))
+    # follow helper extraction: the vertical context may be built in a helper of the same module
+    scope = [f] + [g for g in prog.modules['grammar'].funcs.values() if g.name.startswith('_')]
+    okv = None
+    for g in scope:
+        dom = any(isinstance(n, (ast.comprehension, ast.For)) and isinstance(n.iter, ast.Call)
+                  and prog.callee(n.iter, g) == ('trees', 'dominance') for n in walk_own(g.node))
+        if not dom:
+            continue
+        parents = {}
+        for n in ast.walk(g.node):
+            for c in ast.iter_child_nodes(n):
+                parents[c] = n
+        for n in walk_own(g.node):
+            if isinstance(n, ast.Call) and prog.callee(n, g) == ('treeanalysis', 'gap_degree_node'):
+                p_ = parents.get(n)
+                if isinstance(p_, ast.BinOp) and isinstance(p_.op, ast.Add):
+                    other = p_.right if p_.left is n else p_.left
+                    okv = (unparse(other) == '1') if isinstance(other, ast.Constant) else None
+                elif isinstance(p_, ast.BinOp):
+                    okv = False
+                elif isinstance(p_, (ast.Tuple, ast.BinOp, ast.FormattedValue)):
+                    okv = False       # the gap degree itself is written as fan-out
+    obs.append(Ob('R-DISCONT/CHAIN', f.fq, 'the vertical context lists the ancestors with fan-out = gap degree + 1', okv,
+                  'gap_degree_node(dom) + 1 for dom in trees.dominance(subtree)' if okv else
+                  ('the fan-out in the vertical context is not gap degree + 1' if okv is False else 'not recognised'),
+                  construct='chain-vert', line=f.node.lineno))
     f = prog.func('grammaranalysis', 'fan_out')
-    ok = any(isinstance(n, ast.Assign) and unparse(n.targets[0]).endswith('[0]') and unparse(n.value) == 'len(%s)' % f.params[0]
-             for n in walk_own(f.node))
+    ok = None
+    for n in walk_own(f.node):
+        if isinstance(n, ast.Assign) and unparse(n.targets[0]).endswith('[0]'):
+            ok = unparse(n.value) == 'len(%s)' % f.params[0]
     obs.append(Ob('R-DISCONT/CHAIN', f.fq, 'the fan-out of the left-hand side is the number of its arguments', ok,
                   'result[0] = len(lin)' if ok else 'position 0 of the fan-out vector is not len(lin)',
                   construct='chain-fanout', line=f.node.lineno))
     f = prog.func('grammaranalysis', 'is_contextfree')
     cfg = f.cfg
+    G = f.params[0]
+    ok = None
+    why = 'is_contextfree has a shape this rule does not recognise'
     tests = [n for n in cfg.eval_nodes() if n.kind == 'test' and len(n.loops) == 2]
-    ok = False
-    why = 'no fan-out test inside the loops over all rules and linearizations'
+    skips = any(n.kind == 'stmt' and isinstance(n.ast, (ast.Continue, ast.Break)) for n in cfg.eval_nodes())
+    rets = [n for n in walk_own(f.node) if isinstance(n, ast.Return)]
     if len(tests) == 1:
         t = tests[0]
         nt = norm_test(t.ast, True)
         form = nt == ('cmp', '1', '<', 'fan_out(%s)[0]' % unparse(cfg.nodes[t.loops[1]].ast.target))
         every = cfg.in_every_iteration(t.loops[1], t.id) and cfg.in_every_iteration(t.loops[0], t.loops[1]) \
-            and unparse(cfg.nodes[t.loops[0]].ast.iter) == f.params[0]
+            and unparse(cfg.nodes[t.loops[0]].ast.iter) in (G, G + '.keys()')
         rf = [n for n in cfg.eval_nodes() if n.kind == 'stmt' and isinstance(n.ast, ast.Return)]
         rets_ok = sorted(unparse(r.ast) for r in rf) == ['return False', 'return True'] and \
             all((unparse(r.ast) == 'return False') == bool(r.loops) for r in rf)
-        noskip = not any(n.kind == 'stmt' and isinstance(n.ast, (ast.Continue, ast.Break)) for n in cfg.eval_nodes())
-        ok = form and every and rets_ok and noskip
-        why = 'every (rule, linearization) is tested with fan_out(lin)[0] > 1; False at the first hit, True otherwise' \
-            if ok else 'test form ok: %s, reached for every rule and linearization: %s, returns ok: %s, no skipping: %s' \
-            % (form, every, rets_ok, noskip)
+        if skips or not every:
+            ok, why = False, 'some rules or linearizations are skipped before the fan-out test'
+        elif form and rets_ok:
+            ok, why = True, 'every (rule, linearization) is tested with fan_out(lin)[0] > 1; False at the first hit, True otherwise'
+    elif len(rets) == 1 and isinstance(rets[0].value, ast.UnaryOp) and isinstance(rets[0].value.op, ast.Not) \
+            and isinstance(rets[0].value.operand, ast.Call) and unparse(rets[0].value.operand.func) == 'any' \
+            and isinstance(rets[0].value.operand.args[0], (ast.GeneratorExp, ast.ListComp)):
+        g = rets[0].value.operand.args[0]
+        nt = norm_test(g.elt, True)
+        lastv = unparse(g.generators[-1].target)
+        if any(gen.ifs for gen in g.generators):
+            ok, why = False, 'some rules or linearizations are filtered out before the fan-out test'
+        elif nt == ('cmp', '1', '<', 'fan_out(%s)[0]' % lastv) and len(g.generators) == 2 \
+                and unparse(g.generators[0].iter) in (G, G + '.keys()', G + '.values()'):
+            ok, why = True, 'not any(fan_out(lin)[0] > 1) over every rule and linearization'
+    elif skips:
+        ok, why = False, 'some rules or linearizations are skipped before the fan-out test'
+    elif len(tests) == 0 and any(n.kind == 'test' and len(n.loops) == 1 for n in cfg.eval_nodes()):
+        ok, why = False, 'only one linearization per rule is inspected'
     obs.append(Ob('R-DISCONT/CHAIN', f.fq, 'a grammar is context-free iff no linearization has more than one argument',
                   ok, why, construct='chain-cf', line=f.node.lineno))
     return obs, {}
